@@ -327,6 +327,11 @@ Definition cand_keys (view : list node) (reqs : list bytes) : list bytes :=
   flat_map (fun d => map (fun c => key (d ++ [c])) (comp_pool view reqs)) ([] :: all_cpaths view).
 
 Definition fuel_bound (view : list node) (reqs : list bytes) : nat := S (length (cand_keys view reqs)).
+(* the same number without building the candidate keys (what the glue evaluates: a tree with a
+   thousand entries has a million candidate keys) *)
+Definition fuel_bound_fast (view : list node) (reqs : list bytes) : nat :=
+  let n := length (all_cpaths view) in
+  S (n + S n * length (comp_pool view reqs)).
 
 (* ------------------------------------------------------------------ filepath.Match (Go 1.23) *)
 Definition rune_error : N := 65533.
